@@ -7,6 +7,7 @@ CONSTANTS
   MaxMut = 2
   MaxFault = 2
   MaxEnv = 7
+  MaxHold = 1
   SimLen = 100
   WReply = 1
   WDeliver = 1
